@@ -272,6 +272,7 @@ func runMilestones(es []events.Event) []msObs {
 		"ProfileParsing": events.ProfileParsingStart, "InputDataParsing": events.InputDataParsingStart,
 		"InputDataNormalization": events.InputDataNormalizationStart, "RegoGeneration": events.RegoGenerationStart,
 		"OpaValidation": events.OpaValidationStart, "BuildReport": events.BuildReportStart,
+		"RegoCompilation": events.RegoCompilationStart,
 	}
 	for {
 		select {
